@@ -684,8 +684,37 @@ func (run *propRun) report(id, tier string, seed int, start time.Time, update bo
 			// executed is not a loss: these obligations are keyed by the expression, and whatever replaced the expression
 			// has obligations of its own (which are violations when they fail, ledger or not)
 			kind := ledger.Keys[k].Kind
+			if kind == "effects" && strings.Contains(k, ".effects[map range #") && run.w.Funcs[obFunc(k)] != nil {
+				// a range over a built-in map that is gone from a function that still exists: nothing left to be order-dependent
+				// (the ranges that remain are numbered afresh and have obligations of their own)
+				still := false
+				for pk := range present {
+					if obFunc(pk) == obFunc(k) && strings.Contains(pk, ".effects[map range #") {
+						still = true
+					}
+				}
+				if !still {
+					run.notes = append(run.notes, "map range no longer exists: "+k)
+					continue
+				}
+			}
 			if kind == "inv-init" || kind == "inv-step" {
-				if why, isLapsed := run.lapsed[k[:strings.LastIndex(k, ".")]]; isLapsed {
+				why, isLapsed := run.lapsed[k[:strings.LastIndex(k, ".")]]
+				if !isLapsed && len(ledger.Keys[k].Tags) == 0 && liveFunc[obFunc(k)] {
+					// the loop the invariant belonged to no longer exists (replaced by a library call, unrolled, merged):
+					// an untagged invariant is a proof hint, and there is nothing left for it to hint at
+					loopGone := true
+					pre := k[:strings.Index(k, ".inv[")]
+					for pk := range present {
+						if strings.HasPrefix(pk, pre+".") {
+							loopGone = false
+						}
+					}
+					if loopGone {
+						why, isLapsed = "its loop no longer exists", true
+					}
+				}
+				if isLapsed {
 					// only quiet if the function has no failing claimed obligation (otherwise everything is reported)
 					fnBad := false
 					for _, v := range viols {
